@@ -6,6 +6,9 @@ tests = sys.argv[2] if len(sys.argv) > 2 else "tests/"
 p = next(json.loads(l) for l in open("/verif/properties.jsonl") if json.loads(l)["id"] == pid)
 suffix = sys.argv[3] if len(sys.argv) > 3 else ""
 d = "/tmp/seed_%s%s" % (pid, suffix)
+hint = (" Prefer a less obvious place for the change than the first function that comes to mind: a helper it relies on, a "
+        "variant or subclass that shares the behaviour (e.g. a TLS flavour, another server / store / doer class the statement "
+        "also covers), an option or code path that default usage does not take, or a rarely exercised branch of the main path.") if suffix >= "c" else ""
 print(f"""You are working in a scratch git worktree of the Python library ioflo/hio at {d} (library source under {d}/src/hio, its tests under {d}/tests). Work ONLY inside {d}. Do not read, touch or depend on /repo, /verif or any other checkout.
 
 Environment facts:
@@ -19,7 +22,7 @@ The property of hio you are asked to break:
   Quantified over: {p['quantifier']['text']}
   Anchored in: {', '.join(p['anchors']['files'])}
 
-Your task: make ONE small, realistic change to the library source under src/hio that makes this property false, while the package still imports and the existing tests listed above give exactly the same pass/fail results as before your change. The change must look like a plausible maintenance bug (refactoring slip, off-by-one, wrong comparison, lost update, missed edge case, two sites that each look fine alone), and it must NOT be something ordinary use would expose at once: it should need something specific to manifest - a particular interleaving or step, a fault at a particular point, a multi-step sequence of operations, an unusual but legal input, or a specific combination of settings. Do not make the change trivially detectable (no syntax errors, no always-raising code), and do not edit tests.
+Your task: make ONE small, realistic change to the library source under src/hio that makes this property false, while the package still imports and the existing tests listed above give exactly the same pass/fail results as before your change. The change must look like a plausible maintenance bug (refactoring slip, off-by-one, wrong comparison, lost update, missed edge case, two sites that each look fine alone), and it must NOT be something ordinary use would expose at once: it should need something specific to manifest - a particular interleaving or step, a fault at a particular point, a multi-step sequence of operations, an unusual but legal input, or a specific combination of settings. Do not make the change trivially detectable (no syntax errors, no always-raising code), and do not edit tests.{hint}
 
 Deliverables, all inside {d}/seed_out/ :
   1. patch.diff  - `git diff` of your source change only (it must apply with `git apply` to a clean checkout of this worktree's HEAD).
